@@ -682,12 +682,12 @@ def r6_status(program, folder, rep):
 def check(program, rep):
     program.module(MC)
     folder = Folder(program)
-    r1_chip_info(program, folder, rep)
-    r2_p2p(program, folder, rep)
-    r3_sets(program, rep)
-    r4_machine(program, rep)
-    r5_reservations(program, rep)
-    r6_status(program, folder, rep)
+    rep.guard("C14-R1", r1_chip_info, program, folder, rep)
+    rep.guard("C14-R2", r2_p2p, program, folder, rep)
+    rep.guard("C14-R3", r3_sets, program, rep)
+    rep.guard("C14-R4", r4_machine, program, rep)
+    rep.guard("C14-R5", r5_reservations, program, rep)
+    rep.guard("C14-R6", r6_status, program, folder, rep)
     return finish(rep, program, EXPLANATION, NOT_DECIDED,
                   trusted=["SC&MP cmd_info arg1 layout INFO_ARG1 in "
                            "rules/C14.py", "the checker's parser of "
